@@ -746,7 +746,7 @@ class ImportanceNestedSampler(BaseNestedSampler):
         """
         if self.min_samples > self.nlive:
             raise ValueError("`min_samples` must be less than `nlive`")
-        if self.min_remove > self.nlive:
+        if self.min_remove >= self.nlive:
             raise ValueError("`min_remove` must be less than `nlive`")
         logger.debug("Sampler configuration is valid")
         return True
